@@ -142,7 +142,38 @@ def run(ctx):
         check_case(spec, seed, obs)
         if k < 2 and ctx.index == 0:
             obs.sample({'spec': spec})
+    concurrent_pass(ctx, ctx.share(ctx.pick(120, 3000)))
+
+
+def tree_thunk(item):
+    """Build the tree (outside the schedule), return a thunk that serialises
+    it, parses the bytes back and serialises again."""
+    import random
+    from pydiffx.dom import DiffX
+    spec, seed = item
+    tree = trees.build(spec, random.Random(seed))
+
+    def thunk():
+        data = tree.to_bytes()
+        back = DiffX.from_bytes(data)
+        return [data, treesnap.snapshot(back), back.to_bytes()]
+    return thunk
+
+
+def concurrent_pass(ctx, n_groups):
+    """Independent trees serialised / parsed in several threads at once."""
+    rng = ctx.rng
+    for _ in range(n_groups):
+        items = [[trees.gen_tree(rng), rng.randrange(1 << 30)]
+                 for _ in range(rng.randint(2, 4))]
+        ctx.obs.case(('concurrent', items))
+        try:
+            common.check_concurrent(ctx.obs, rng, items, tree_thunk, 'trees')
+        except Exception as e:
+            ctx.obs.count('concurrent:construction_raised(see main pass)')
 
 
 def replay(case, obs):
+    if 'concurrent' in case:
+        return common.replay_concurrent(case, obs, tree_thunk)
     check_case(case['spec'], case['build_seed'], obs, 'replay')
